@@ -183,6 +183,51 @@ Proof.
   intros P Ha Hs m Hm. exfalso. exact (stop_clear_none s P Ha Hs m FPending Hm eq_refl).
 Qed.
 
+(* the dispatcher reports the failed send of command n *)
+Lemma px_failing_done s n k st x :
+  sp s = SDispFailing n k -> st <> FPending -> (forall a b, x <> SDispFailing a b) ->
+  inv_pend s -> inv_pend (set_sp (set_futs s (fut_resolve n st (futs s))) x).
+Proof.
+  intros Hsp Hst Hx P m Hm. unfold pending in Hm; cbn in Hm. pose proof Hm as Hm0.
+  apply fut_resolve_cases in Hm. destruct Hm as [Hm|(_ & Hy & _)]; [|congruence].
+  assert (Hne : m <> n).
+  { intros ->. rewrite fut_get_resolve_same, Hm in Hm0. destruct st; congruence. }
+  left. destruct (P m Hm) as [H|[]]. unfold holders in *; cbn. rewrite Hsp in H. rewrite !in_app_iff in *.
+  destruct H as [H|[H|[H|H]]]; auto.
+  destruct H as [->|[]]. contradiction Hne; reflexivity.
+Qed.
+
+(* QueueTimeout: the blocked caller cancels its own future *)
+Lemma px_qtimeout s n b :
+  ap s = ACmd n b true -> inv_pend s ->
+  inv_pend (set_ap (set_futs s (fut_resolve n (FCancelled CQueueTimeout) (futs s))) ANone).
+Proof.
+  intros Hap P m Hm. unfold pending in Hm; cbn in Hm. pose proof Hm as Hm0.
+  apply fut_resolve_cases in Hm. destruct Hm as [Hm|(_ & Hy & _)]; [|congruence].
+  assert (Hne : m <> n).
+  { intros ->. rewrite fut_get_resolve_same, Hm in Hm0. congruence. }
+  left. destruct (P m Hm) as [H|[]]. unfold holders in *; cbn. rewrite Hap in H. rewrite !in_app_iff in *.
+  destruct H as [H|H]; [|exact H]. destruct H as [->|[]]. contradiction Hne; reflexivity.
+Qed.
+
+(* a new command: its future is pending and held by the caller or the queue *)
+Lemma px_call s b s1 :
+  ap s = ANone -> inv_pend s ->
+  s1 = St (cap s) (started s) (dying s) (kill s) (protected s) (sp s) (ACmd (nextn s) b true) (subs s) (queue s) (store s)
+          (futs s ++ [(nextn s, FPending)]) (nextn s + 1)
+          (issued s) (itags s) (dispatched s) (dtags s) (drained s) (resubs s) (ready s) (gen s) ->
+  inv_pend s1 /\ inv_pend (enqueue s1 (nextn s) b).
+Proof.
+  intros Hap P ->. split; intros m Hm; left; unfold pending in Hm; cbn in Hm; rewrite fut_get_app in Hm;
+    unfold holders; cbn; rewrite ?map_app, !in_app_iff; cbn.
+  - destruct (fut_get m (futs s)) as [x|] eqn:E.
+    + injection Hm as ->. destruct (P m E) as [H|[]]. unfold holders in H. rewrite Hap in H. cbn in H. rewrite !in_app_iff in H. tauto.
+    + destruct (nextn s =? m) eqn:En; [|discriminate]. apply N.eqb_eq in En. Show. left; left; exact En.
+  - destruct (fut_get m (futs s)) as [x|] eqn:E.
+    + injection Hm as ->. destruct (P m E) as [H|[]]. unfold holders in H. rewrite Hap in H. cbn in H. rewrite !in_app_iff in H. tauto.
+    + destruct (nextn s =? m) eqn:En; [|discriminate]. apply N.eqb_eq in En. right; left. right. left; exact En.
+Qed.
+
 Ltac holders_frame s :=
   apply (px_frame [] s); [reflexivity| |assumption];
   unfold holders; cbn; rw_ctl; cbn; intros m; rewrite ?in_app_iff; cbn; tauto.
@@ -192,5 +237,16 @@ Proof.
   intros C P H. pose proof (ic_store s C) as Hnd. destruct e; step_inv H.
   all: try assumption.
   all: try (holders_frame s).
+  (* acknowledgements *)
+  all: try (apply px_ack; auto; discriminate).
+  all: try (apply px_del_other; auto; intros m; match goal with E : store_get _ _ = _ |- _ => rewrite E end; discriminate).
+  all: try (apply (px_frame [] (set_store s (store_del id (store s)))); [reflexivity| |
+            apply px_del_other; auto; intros m; match goal with E : store_get _ _ = _ |- _ => rewrite E end; discriminate];
+            unfold holders; cbn; rw_ctl; cbn; intros m; rewrite ?in_app_iff; cbn; tauto).
+  (* dispatcher *)
+  all: try (eapply px_failing_done; eauto; discriminate).
+  all: try (apply px_put_cmd; [rewrite pop_store; exact Hnd|apply px_pop; auto]).
+  all: try (apply px_failing; [cbn; rewrite pop_sp; assumption| apply px_put; [rewrite pop_store; exact Hnd|apply px_pop; auto]]).
+  all: try (apply px_qtimeout with (b := b); auto).
   all: match goal with |- ?G => idtac "LEFT" G end.
 Abort.
